@@ -875,10 +875,13 @@ def titleparts_fn(
     elif first > num_parts:
         first = num_parts
     if num_return == 0:
-        num_return = num_parts
+        last = num_parts
     elif num_return < 0:
-        num_return = max(0, num_parts + num_return)
-    parts = parts[2 * first : 2 * (first + num_return) - 1]
+        # a negative count drops that many segments from the end
+        last = max(first, num_parts + num_return)
+    else:
+        last = min(num_parts, first + num_return)
+    parts = parts[2 * first : max(2 * first, 2 * last - 1)]
     return "".join(parts)
 
 
